@@ -22,7 +22,7 @@ import itertools
 import os
 from mc import core
 
-SHORT = 0.4     # seconds: first-pass watchdog (a scaffold build takes ~1 ms)
+SHORT = 0.15    # seconds: first-pass watchdog (a scaffold build takes ~1 ms)
 CONFIRM_MAX = 2  # confirmed hangs per interrupted function and worker before short time-outs are trusted
 
 
